@@ -5,6 +5,7 @@ from harness.gen.sessions import gen_case, SidCounter
 THEOREM_NOTE = ("Props/C06.lean: the line read from the console is carried unmodified through InputReceived -> InputReady -> the one-shot callback -> input(); end of input is the "
                 "empty line; the callback belongs to the asking screen and gets the arguments of that request; each delivery consumes one line, produces one InputReceived, one "
                 "successful InputReady, at most one input() call; lines are consumed in order and at most one reader is pending")
+HANG_IS_VIOLATION = "every line typed is delivered: the implementation hangs on a session the model finishes"
 ASSUMPTIONS = ASSUME_SESSION + ["liveness (the line is eventually delivered) is checked by the oracle on sessions, not proved: it fails by design when the application stops or a signal is routed to a blocked outer level"]
 RULE = ("tame sessions (stack operations from input(), 5..30 typed lines incl. empty, blanks, unicode and the global keys, early and late delivery points, screens shown at several "
         "modal depths, end of input) and app sessions; oracle: the keys received by input() are, in order, lines read from the console; in tame sessions every line read is "
@@ -21,7 +22,10 @@ def gen_c06_dialog(rnd, sid):
     for i in range(nscr):
         sc = {"input": [{"ret": rnd.choice(["PROCESSED", "REDRAW", "CLOSE", "CLOSE", "DISCARDED"])} for _ in range(6)]}
         screens.append(dict(id=i, name="S%d" % i, title=None, text="t%d" % i, height=30, input_required=True, no_separator=False,
-                            skip_check=(i > 0 and rnd.random() < 0.8), scripts=sc))
+                            skip_check=(i > 0 and rnd.random() < 0.8), scripts=sc, hidden=rnd.random() < 0.3))
+    if rnd.random() < 0.4:
+        # the dialog is a notice: it takes no input and closes itself while it is drawn
+        screens[1]["input_required"] = False; screens[1]["scripts"] = {"show": [{"acts": [["close_sig", 1]]}] * 3}
     hs = [dict(cls="U0", hid=0, data=None, scripts=[[[rnd.choice(["push_modal", "push_modal", "push"]), rnd.randrange(1, nscr), rnd.choice([None, 1])]] for _ in range(3)])]
     init = [["schedule", 0, rnd.choice([None, 2])]] + [["enq", "U0", rnd.choice([0, 0, 1]), None, sid.next()] for _ in range(rnd.randint(1, 2))]
     return dict(op="machine", mode="dialog", width=80, screens=screens, handlers=hs, init=init, stdin=[rnd.choice(LINES) for _ in range(rnd.randint(2, 8))],
@@ -35,6 +39,7 @@ def generate(rnd, tier):
     for _ in range(n):
         c = gen_case(rnd, "tame", sid)
         c["stdin"] = [rnd.choice(LINES) for _ in range(rnd.randint(3, 30))]
+        for s_ in c["screens"]: s_["hidden"] = rnd.random() < 0.2          # hidden (password) prompts, also at the end of the input
         cases.append(c)
     cases += [gen_case(rnd, "app", sid) for _ in range(n // 3)] + [gen_c06_dialog(rnd, sid) for _ in range(n // 3)]
     return [with_cc(c) for c in cases]
